@@ -37,7 +37,7 @@ func c12Bytes(f, n, salt int) []byte {
 func c12Key(k int) []byte {
 	b := make([]byte, 16)
 	for j := 1; j <= 16; j++ {
-		b[j-1] = byte((k*37 + j*101 + j*j*(k+3)) % 256)
+		b[j-1] = byte((k*37 + j*101 + j*j*(k+3) + (k/256)*(j*29+11)) % 256)
 	}
 	return b
 }
